@@ -47,3 +47,16 @@ Definition enc_pout (o : pout) : list Z :=
 Definition run_c06_case (es : list pevent) : list Z :=
   let '(st, os) := proto_run p_init es in
   flat_map (fun o => flat_map enc_pout o ++ [(-1)%Z]) os ++ [Z.of_N (p_seq st)].
+
+(* ---- C08: raw bytes through frame_received, with or without a pending command ------------------ *)
+Definition invalid_fid_of (v : N) : N :=
+  match find_by_name "invalidCommand"%string (commands_of v) with Some c => c_id c | None => 0xFFFFF end.
+
+Definition run_c08_case (c : N * option (Z * N) * list N) : list Z :=
+  let '(v, pending, data) := c in
+  let st := match pending with
+            | Some (prio, fid) => fst (proto_run p_init [ECall 0 prio fid; ESendDone 0 true])
+            | None => p_init
+            end in
+  let '(st', o) := frame_received SCHEMAS (kind_of v) (commands_of v) (invalid_fid_of v) st data in
+  flat_map enc_pout o ++ [(-1)%Z; Z.of_nat (List.length (p_awaiting st')); Z.of_nat (List.length (p_calls st'))].
